@@ -10,7 +10,7 @@ CFG = dict(
          "ORDER BY 0-2 keys ASC/DESC incl. the group column and a non-column; LIMIT 0..groups+1; DISTINCT) sent as SQL text to the real engine and as an AST to the model, "
          "with three batches of 1-6 groups over small value domains (ties). Modes: direct (synchronous feed through the real processWindowBatch), "
          "win (real CountingWindow over all groups, sentinel batch as barrier), e2e (streamsql.Execute, keyed CountingWindow, sentinel). "
-         "Deliveries are compared with the model run under the pre-sort order the delivery witnesses, and judged by the relational oracle Spec.valid; distinct = distinct (cfg, op list) Added late: the cap set on the parsed configuration instead of in the statement (`proglimit`); the group column taken from a joined table and spelled m.d in SELECT / GROUP BY / ORDER BY (`join`, win mode). Every fifth case runs under WithHighPerformance (`preset high`), for C05/C06/C12/C13/C14/C16/C20 another fifth under WithLowLatency (`preset low`); every seventh case follows a noise prelude (failing statements, malformed rows, panicking sink / function in other instances).",
+         "Deliveries are compared with the model run under the pre-sort order the delivery witnesses, and judged by the relational oracle Spec.valid; distinct = distinct (cfg, op list) Added late: the cap set on the parsed configuration instead of in the statement (`proglimit`); the group column taken from a joined table and spelled m.d in SELECT / GROUP BY / ORDER BY (`join`, win mode); one group of the first batch may lack a column in all its rows (NULL aggregates; queries without HAVING). Every fifth case runs under WithHighPerformance (`preset high`), for C05/C06/C12/C13/C14/C16/C20 another fifth under WithLowLatency (`preset low`); every seventh case follows a noise prelude (failing statements, malformed rows, panicking sink / function in other instances).",
     assumptions=["result rows are compared as delivered: streamsql puts every GROUP BY column into the result row whether selected or not, so rows of one batch always differ in the group column (DISTINCT can never merge two groups' rows; the dedup loop itself is covered by distinct_first_occurrence)",
                  "wf: output column names pairwise different, different from the group column and not starting with __; SELECT items do not reference other output columns",
                  "the SELECT-side placeholder name is the hex-encoded call text (injective; repaired in /repo 2427a79 — it was a 31-polynomial hash, under which SUM(Aa) and SUM(BB) collided); the model identifies a placeholder with its call, and the generator produces same-function aggregates over the columns Aa / BB (equal hashes) to notice a return of the collision",
